@@ -706,8 +706,9 @@ Definition c01_authority (kind : N) (target : list N) : option (list N) :=
   if kind =? 1 then Some target
   else match strip_prefix HTTP_SCHEME target with Some r => Some (take_until_slash r) | None => None end.
 
+(* '@x' stands for one of the harness's loopback destinations (address:port) *)
 Definition c01_has_port (a : list N) : bool :=
-  existsb (fun c => c =? 58) a || list_eqb N.eqb a [64; 65] || list_eqb N.eqb a [64; 66].
+  existsb (fun c => c =? 58) a || match a with 64 :: _ => true | _ => false end.
 
 Fixpoint c01_reqs (auth : option authenticator) (p : policy) (toks : list (list N)) (fuel : nat) : list (list N) :=
   match fuel with
